@@ -20,7 +20,10 @@
 EXTENDS Naturals, Sequences, FiniteSets
 
 CONSTANTS L,        \* number of lanes
-          MAXLEN    \* the "idle" length (0xFFFF in the code); larger than any job length
+          MAXLEN,   \* the "idle" length (0xFFFF in the code); larger than any job length
+          R         \* granularity of the kernel: 1 for the block ciphers (lengths are whole blocks anyway); 4 for ZUC-EEA3,
+                    \* whose kernel (asm_ZucCipher_N) rounds the minimum up to whole 32-bit keystream words, takes that off
+                    \* every lane and clamps at 0 - a lane whose remainder is below the rounded minimum completes too
 
 Lanes == 0 .. L - 1
 NOJOB == 0          \* job ids are positive
@@ -45,10 +48,13 @@ MaxLane(S) == CHOOSE l \in S : \A k \in S : k <= l
 Process(st, eff) ==
     LET idx == ArgMin(eff)
         mn == eff[idx]
-        lens2 == IF mn = 0 THEN st.lens ELSE [l \in Lanes |-> eff[l] - mn]
+        mr == ((mn + R - 1) \div R) * R                       \* what the kernel takes off every lane
+        \* bytes actually processed per lane (idle lanes duplicate a live lane for exactly the minimum)
+        adv == [l \in Lanes |-> IF st.jil[l] = NOJOB THEN mn ELSE IF eff[l] > mr THEN mr ELSE eff[l]]
+        lens2 == IF mn = 0 THEN st.lens ELSE [l \in Lanes |-> eff[l] - adv[l]]
         writes == IF mn = 0 THEN {}
-                  ELSE { <<st.args[l].buf, st.args[l].pos + k, st.args[l].key>> : l \in Lanes, k \in 0 .. mn - 1 }
-        args2 == [l \in Lanes |-> [st.args[l] EXCEPT !.pos = @ + mn]]
+                  ELSE UNION { { <<st.args[l].buf, st.args[l].pos + k, st.args[l].key>> : k \in 0 .. adv[l] - 1 } : l \in Lanes }
+        args2 == [l \in Lanes |-> [st.args[l] EXCEPT !.pos = @ + adv[l]]]
     IN [st |-> [stack |-> <<idx>> \o st.stack,
                 jil |-> [st.jil EXCEPT ![idx] = NOJOB],
                 lens |-> lens2,
